@@ -45,6 +45,7 @@ type l16 struct {
 	votedBy  map[string]map[int]bool
 	aimChain string
 	aimN     int
+	aimSvc   string // a service of aimChain the aimed probes prefer
 	script   []func() (pb.Transaction, string, []string)
 }
 
@@ -69,6 +70,56 @@ func (l *l16) scriptFrozenChainRuleChange(chain string) {
 		}
 		return w.BVM(harness.ChainAdmin(chain), harness.AddrRule, "UpdateMasterRule", pb.String(chain), pb.String(l.rule2[chain]), pb.String("r")), "UpdateMasterRule " + chain + " (scripted, chain frozen)", []string{chain, l.rule2[chain]}
 	}, approve(0), approve(1), approve(2))
+}
+
+// scriptApprove: admin i approves the newest open proposal concerning obj (any, if obj is empty).
+func (l *l16) scriptApprove(i int, obj, chain string) func() (pb.Transaction, string, []string) {
+	return func() (pb.Transaction, string, []string) {
+		for k := len(l.open) - 1; k >= 0; k-- {
+			if pid := l.open[k]; obj == "" || l.objOf[pid] == obj {
+				return l.world.BVM(harness.AdminKey(i), harness.AddrGov, "Vote", pb.String(pid), pb.String("approve"), pb.String("r")), fmt.Sprintf("vote approve on %s (scripted)", pid), []string{l.objOf[pid], chain}
+			}
+		}
+		return nil, "", nil
+	}
+}
+
+// scriptServiceRegisteredOnFrozenChain: a service registration is still open when its appchain is frozen
+// (approved); the registration is approved afterwards: the new service belongs to an unusable chain.
+func (l *l16) scriptServiceRegisteredOnFrozenChain(chain string) {
+	w := l.world
+	s3 := chain + ":s3"
+	l.script = append(l.script, func() (pb.Transaction, string, []string) {
+		return w.BVM(harness.ChainAdmin(chain), harness.AddrService, "RegisterService", pb.String(chain), pb.String("s3"), pb.String("name-"+s3), pb.String("CallContract"), pb.String("i"), pb.Uint64(1), pb.String(""), pb.String("d"), pb.String("r")), "RegisterService " + s3 + " (scripted)", []string{s3}
+	}, func() (pb.Transaction, string, []string) {
+		return w.BVM(harness.AdminKey(0), harness.AddrAppchain, "FreezeAppchain", pb.String(chain), pb.String("r")), "FreezeAppchain " + chain + " (scripted)", []string{chain}
+	}, l.scriptApprove(1, chain, chain), l.scriptApprove(2, chain, chain), l.scriptApprove(3, chain, chain),
+		l.scriptApprove(0, s3, chain), l.scriptApprove(1, s3, chain), l.scriptApprove(2, s3, chain),
+		func() (pb.Transaction, string, []string) {
+			l.aimChain, l.aimN, l.aimSvc = chain, 8, s3
+			return nil, "", nil
+		})
+}
+
+// scriptCascadeOverLoggedOutService: the chain's first service is logged out (approved), then the appchain is
+// frozen and activated again (both approved): the activation announces all services of the chain in one
+// transaction, and the logged-out one must stay unusable (cached and stored record).
+func (l *l16) scriptCascadeOverLoggedOutService(chain string) {
+	w := l.world
+	s1 := chain + ":s1"
+	l.script = append(l.script, func() (pb.Transaction, string, []string) {
+		return w.BVM(harness.ChainAdmin(chain), harness.AddrService, "LogoutService", pb.String(s1), pb.String("r")), "LogoutService " + s1 + " (scripted)", []string{s1}
+	}, l.scriptApprove(0, s1, chain), l.scriptApprove(1, s1, chain), l.scriptApprove(2, s1, chain),
+		func() (pb.Transaction, string, []string) {
+			return w.BVM(harness.AdminKey(0), harness.AddrAppchain, "FreezeAppchain", pb.String(chain), pb.String("r")), "FreezeAppchain " + chain + " (scripted)", []string{chain}
+		}, l.scriptApprove(1, chain, chain), l.scriptApprove(2, chain, chain), l.scriptApprove(3, chain, chain),
+		func() (pb.Transaction, string, []string) {
+			return w.BVM(harness.ChainAdmin(chain), harness.AddrAppchain, "ActivateAppchain", pb.String(chain), pb.String("r")), "ActivateAppchain " + chain + " (scripted)", []string{chain}
+		}, l.scriptApprove(0, chain, chain), l.scriptApprove(1, chain, chain), l.scriptApprove(2, chain, chain),
+		func() (pb.Transaction, string, []string) {
+			l.aimChain, l.aimN, l.aimSvc = chain, 8, s1
+			return nil, "", nil
+		})
 }
 
 const happyRule = "0x00000000000000000000000000000000000000a2"
@@ -276,6 +327,9 @@ func (l *l16) probe() {
 	if l.aimN > 0 && r.Intn(4) != 0 {
 		l.aimN--
 		mine := l.aimChain + ":" + []string{"s1", "s2"}[r.Intn(2)]
+		if l.aimSvc != "" && strings.HasPrefix(l.aimSvc, l.aimChain+":") && r.Intn(3) != 0 {
+			mine = l.aimSvc
+		}
 		for other := svcs[r.Intn(6)]; ; other = svcs[r.Intn(6)] {
 			if strings.Split(other, ":")[0] != l.aimChain {
 				if r.Intn(3) == 0 {
@@ -459,9 +513,16 @@ func lc16Case(w *vlog.W, a *wargs, id int, rng *rand.Rand, opts harness.Options)
 			lcObj{"node", harness.DetKey(fmt.Sprintf("lc-node-%d", i)).Addr.String(), ""})
 	}
 	l.observe(nil, world.R.Height())
-	if rng.Intn(3) == 0 {
-		l.scriptFrozenChainRuleChange([]string{harness.ChainA, harness.ChainB, harness.ChainC}[rng.Intn(3)])
+	switch sc, chain := rng.Intn(6), []string{harness.ChainA, harness.ChainB, harness.ChainC}[rng.Intn(3)]; sc {
+	case 0, 1:
+		l.scriptFrozenChainRuleChange(chain)
 		l.shape["scripted:rule-change-on-frozen-chain"] = true
+	case 2:
+		l.scriptServiceRegisteredOnFrozenChain(chain)
+		l.shape["scripted:service-registered-on-frozen-chain"] = true
+	case 3:
+		l.scriptCascadeOverLoggedOutService(chain)
+		l.shape["scripted:cascade-over-logged-out-service"] = true
 	}
 	for s := 0; s < 70; s++ {
 		if rng.Intn(12) == 0 { // restart: cached and stored service records must give the same gate
